@@ -16,8 +16,10 @@ import (
 
 type proxyPlain struct{ n flyt.Node }
 
-func (p *proxyPlain) Prep(ctx context.Context, s *flyt.SharedStore) (any, error) { return p.n.Prep(ctx, s) }
-func (p *proxyPlain) Exec(ctx context.Context, v any) (any, error)               { return p.n.Exec(ctx, v) }
+func (p *proxyPlain) Prep(ctx context.Context, s *flyt.SharedStore) (any, error) {
+	return p.n.Prep(ctx, s)
+}
+func (p *proxyPlain) Exec(ctx context.Context, v any) (any, error) { return p.n.Exec(ctx, v) }
 func (p *proxyPlain) Post(ctx context.Context, s *flyt.SharedStore, a, b any) (flyt.Action, error) {
 	return p.n.Post(ctx, s, a, b)
 }
